@@ -300,6 +300,8 @@ func (fc *FnCtx) assertGlobalSliceLiteral(key string, g *ssa.Global, cl *ast.Com
 		tb.Eq(tb.App("s_off", "Int", c), tb.Int(0)), tb.Not(tb.Eq(arr, tb.Const("null", "Ref")))}
 	for i, v := range vals {
 		facts = append(facts, tb.Eq(tb.Select(tb.Select(e0, arr), tb.Int(int64(i))), v))
+		// the same fact in the shape quantified element accesses are matched against
+		facts = append(facts, tb.Eq(tb.Select(tb.Select(e0, arr), tb.SIdx(tb.App("s_off", "Int", c), tb.Int(int64(i)))), v))
 	}
 	// the literal's backing array exists since package initialisation
 	fc.regKey("alloc", ArraySort("Ref", "Bool"))
